@@ -4,7 +4,7 @@ cd "$(dirname "$0")"
 fail=0
 for d in seeded/*/; do
   id=$(basename $d)
-  [ "$id" = "benign" ] && continue; [ "$id" = "benign2" ] && continue
+  [ "$id" = "benign" ] && continue; [ "$id" = "benign2" ] && continue; [ "$id" = "benign3" ] && continue
   prop=$(python3 -c "import json; print(json.load(open('$d/meta.json'))['breaks_property'])")
   out=$(./seedrun.sh $d/patch.diff $prop 2>&1)
   if echo "$out" | grep -q "^VIOLATION property=$prop"; then
